@@ -105,7 +105,7 @@ def explore_block(S, n_inner_max, cols, want=('C03', 'C05', 'C06')):
     core = S.core
     fn = S.find_fn(core, 'block_comment')
     found = []
-    for n, closed in [(n_, True) for n_ in range(0, n_inner_max + 1)] + [(n_, False) for n_ in range(0, n_inner_max + 1) if 'C05' in want or 'C06' in want]:
+    for n, closed in [(n_, True) for n_ in range(0, n_inner_max + 1)] + [(n_, False) for n_ in range(0, n_inner_max + 1) if 'C05' in want]:
         def body(ctx, n=n, closed=closed):
             m = S.machine(core, STD, ctx)
             t, inner = comment_text(ctx, n) if closed else comment_text_open(ctx, n)
@@ -128,7 +128,7 @@ def explore_block(S, n_inner_max, cols, want=('C03', 'C05', 'C06')):
                 ctx.must_hold(False, 'C06:comment-doc-shape', describe)
                 return
             ins = split_lines(ctx, t)
-            if 'C06' in want:
+            if 'C06' in want and closed:      # (a comment that is never closed ends with the text: its trailing line ends merge with the end of the output)
                 ctx.must_hold(len(outs) == len(ins), 'C06:comment-line-count', describe)
                 if len(outs) == len(ins):
                     conds = [eq_modulo_blanks(o, i, k == 0) for k, (o, i) in enumerate(zip(outs, ins))]
